@@ -333,6 +333,17 @@ def runCmd (w : World) (tok : Array String) : World × List String :=
       (match getKeys kf (dec (t 2)) with
        | .ok ks => (w, ["keys E0" ++ String.join (ks.map (fun k => " " ++ hexStr k))])
        | .error e => (w, [s!"keys {E e}"]))
+  | "KEYSUM" =>
+    match w.slot (slotOf (t 1)) with
+    | none => (w, ["keysum ?"])
+    | some kf =>
+      let gs := getGroups kf
+      let ks := getKeys kf (dec (t 2))
+      let e1 := match gs with | .ok _ => Err.success | .error e => e
+      let e2 := match ks with | .ok _ => Err.success | .error e => e
+      (w, [s!"keysum {E e1} {E e2}" ++
+        String.join ((gs.toOption.getD []).map (fun g => " g " ++ putSum (some g))) ++
+        String.join ((ks.toOption.getD []).map (fun k => " k " ++ putSum (some k)))])
   | "EXT" => (w, [extLine (kfArg w (t 1)) (dec (t 2)) (dec (t 3))])
   | "EXTSUM" =>
     match kfArg w (t 1) with
